@@ -128,6 +128,8 @@ fn named_inputs_never_panic() {
         "é\\undefinedcommand", "ééé \\count1=x", "日本語 \\the\\relax", "x\u{301}\\undefinedcommand é", "\\def\\a#1.{}\\a é",
         "é}", "{é", "\\catcode`é=1 é", "\u{10FFFF}\\undefinedcommand", "\\count300000=1 é", "é\n\n\\undefinedcommand é\n",
         "\u{feff}\\undefinedcommand", "\t\\undefinedcommand\té", "\\input é", "\\csname é\\endcsname \\undefinedcommand",
+        // the input ends inside a construct, after lines that hold multi-byte characters
+        "éé\n\\count", "% ☕\n\\def\\a{", "é\n\n日本\n\\toks 0 = {unclosed", "ééé\n   \n\\advance", "☕☕☕\n\\ifcase 3 é", "é\\def\\a#1.{}\n\\a é",
     ];
     // every interaction mode, so that every recovery path runs (C09: "in any interaction mode")
     for mode in ["", "\\errorstopmode ", "\\scrollmode ", "\\nonstopmode ", "\\batchmode "] {
@@ -158,7 +160,8 @@ fn primitive_grid_never_panics() {
         "outer", "read", "relax", "scrollmode", "skip", "the", "time", "toks", "toksdef", "tracingmacros", "year"];
     let shapes = ["", " ", "1", "-1", "{", "}", "x", "\\relax", "\\count1", "=1", "\\undefinedcs", "#", "~", "2147483647 ", "-2147483647 ", "{a}{b}", "\\par",
         "1=1", "1 1", "\\a", "\\a=1", "\\a\\a", "16=x", "255 ", "256 ", "32768 ", "-1=\\a", "1 to\\a", "\\a{#1}", "\\a#1#2{#2#1}", "\\a#1#1{}", "\\a#2{}",
-        "\\a#1{#2}", "\\a{", "\\a}", "`", "`\\", "\"G", "'9", "1pt", "1pt plus", "1pt plus 1fil minus", "1.", ".", "--", "1true", "\\the", "\\the\\count", "é", "\u{10ffff}"];
+        "\\a#1{#2}", "\\a{", "\\a}", "`", "`\\", "\"G", "'9", "1pt", "1pt plus", "1pt plus 1fil minus", "1.", ".", "--", "1true", "\\the", "\\the\\count", "é", "\u{10ffff}",
+        "15 to\\a", "16 to\\a", "17 to\\a", "2147483647 to\\a", "-1 to\\a", "\\noexpand\\a", "\\noexpand\\the", "\\noexpand\\iftrue", "\\expandafter\\noexpand\\a"];
     let mut n = 0u64;
     let mut failures = 0;
     let mut try_src = |src: String| -> bool {
@@ -183,6 +186,11 @@ fn primitive_grid_never_panics() {
         if !try_src(format!("\\batchmode \\{p}\\{q} 1 ")) { failures += 1; if failures >= 12 { return; } }
         if !try_src(format!("\\batchmode \\{p} 1\\{q}")) { failures += 1; if failures >= 12 { return; } }
     } }
+    // a primitive, then \\noexpand or \\expandafter, then a primitive or a macro: tokens that reach a primitive unexpanded
+    for p in prims { for mid in ["noexpand", "expandafter"] { for q in prims.iter().copied().chain(["a", "undefinedcs"]) {
+        n += 1;
+        if !try_src(format!("\\batchmode \\def\\a{{z}}\\{p}\\{mid}\\{q} 1 ")) { failures += 1; if failures >= 12 { return; } }
+    } } }
     println!("STATS {{\"driver\": \"primitive grid\", \"programs\": {n}}}");
 }
 
